@@ -523,6 +523,12 @@ func (tt *TermTable) Bin(op Op, a, b *Term) *Term {
 		if b.op == OpConst && b.val == 0 {
 			return a
 		}
+		if a.op == OpBXor || b.op == OpBXor {
+			return tt.xorNorm(w, a, b)
+		}
+		if b.op != OpConst && a.id > b.id {
+			a, b = b, a
+		}
 	case OpShl:
 		if b.op == OpConst {
 			if b.val == 0 {
@@ -1011,5 +1017,61 @@ func (t *Term) write(sb *strings.Builder, depth int) {
 			a.write(sb, depth+1)
 		}
 		sb.WriteString(")")
+	}
+}
+
+// xorNorm flattens an XOR tree, cancels equal leaves, folds constants and
+// rebuilds a chain ordered by term id, so that XOR-combinations that are
+// equal as multisets are the same term.
+func (tt *TermTable) xorNorm(w int, a, b *Term) *Term {
+	var leaves []*Term
+	var c uint64
+	var walk func(t *Term)
+	walk = func(t *Term) {
+		if t.op == OpBXor {
+			walk(t.args[0])
+			walk(t.args[1])
+			return
+		}
+		if t.op == OpConst {
+			c ^= t.val
+			return
+		}
+		leaves = append(leaves, t)
+	}
+	walk(a)
+	walk(b)
+	sortTermsByID(leaves)
+	out := leaves[:0]
+	for i := 0; i < len(leaves); i++ {
+		if i+1 < len(leaves) && leaves[i] == leaves[i+1] {
+			i++
+			continue
+		}
+		out = append(out, leaves[i])
+	}
+	var acc *Term
+	for _, l := range out {
+		if acc == nil {
+			acc = l
+		} else {
+			acc = tt.mk(OpBXor, w, 0, "", []*Term{acc, l})
+		}
+	}
+	if acc == nil {
+		return tt.BV(w, c)
+	}
+	if c&mask(w) != 0 {
+		acc = tt.mk(OpBXor, w, 0, "", []*Term{acc, tt.BV(w, c)})
+	}
+	return acc
+}
+
+func sortTermsByID(ts []*Term) {
+	// insertion sort: lists are short
+	for i := 1; i < len(ts); i++ {
+		for j := i; j > 0 && ts[j-1].id > ts[j].id; j-- {
+			ts[j-1], ts[j] = ts[j], ts[j-1]
+		}
 	}
 }
